@@ -74,6 +74,7 @@ def run(ctx):
             cases.append(d)
     reqs = []
     impl = []
+    norm_reqs, norm_impl = [], []
     for l in cases:
         try:
             # (every path goes through DDSPathUtils.create, as in the library; every third list is spelled with repeated and
@@ -83,7 +84,12 @@ def run(ctx):
                 raw = [("/" if rng.random() < 0.3 else "") + x for x in raw]
             else:
                 raw = [pstr(p) for p in l]
-            r = FIU.non_terminal_leaves([DPU.create(x) for x in raw], None)
+            created = [DPU.create(x) for x in raw]
+            for x_, c_ in zip(raw, created):
+                if len(norm_reqs) < 600:
+                    norm_reqs.append({"op": "normpath", "p": x_})
+                    norm_impl.append(str(c_))
+            r = FIU.non_terminal_leaves(created, None)
             r = [x.split("/")[1:] for x in r]
         except BaseException as e:
             r = "EXC:" + type(e).__name__
@@ -100,6 +106,11 @@ def run(ctx):
         for rq, a, r in zip(reqs, ans, impl):
             if a.get("ok") != r:
                 res.disagreements.append({"what": "non_terminal_leaves differs from the model", "request": rq, "impl": r, "model": a})
+        # the one spelling given to a path when it is created = the model's normPath (C11.spelling_irrelevant)
+        for rq, a, c_ in zip(norm_reqs, common.drv_batch(norm_reqs), norm_impl):
+            if a.get("ok") != c_:
+                res.disagreements.append({"what": "DDSPathUtils.create differs from the model normPath", "request": rq, "impl": c_, "model": a})
+        res.count("path_spellings_compared", len(norm_reqs))
     res.sample({"paths": [pstr(p) for p in cases[len(cases) // 2]], "impl": impl[len(cases) // 2]})
     res.count("unit_lists", len(cases))
     # ---------------- end to end ----------------
